@@ -53,7 +53,7 @@ func rwJob(name string, size int, ign bool, thorough bool) *job {
 	}
 	depth := 8
 	if thorough {
-		depth = 9
+		depth = 10
 	}
 	j := &job{name: name, depth: depth,
 		alpha: func(int, []Op) []Op { return alpha },
@@ -115,7 +115,7 @@ func rwJob(name string, size int, ign bool, thorough bool) *job {
 			case got1 <= want1 && got100 <= want100:
 				kind = "missing"
 			}
-			// shape: buckets elapsed since the last Add's bucket
+			// shape (description only): buckets elapsed since the last Add's bucket
 			el := cur - lastAddBucket
 			shape := "span=0"
 			switch {
@@ -129,7 +129,23 @@ func rwJob(name string, size int, ign bool, thorough bool) *job {
 			default:
 				shape = "span>size"
 			}
-			res.class = fmt.Sprintf("rw-reduce-%s:%s:ignore=%v", kind, shape, ign)
+			res.class = "rw-reduce-" + kind
+			if ign && kind == "extra" {
+				var c1, c100 int64
+				for _, a := range adds {
+					if a.bucket == cur {
+						if a.v == 1 {
+							c1++
+						} else {
+							c100++
+						}
+					}
+				}
+				if c1+c100 > 0 && got1-want1 == c1 && got100-want100 == c100 {
+					res.class = "rw-current-bucket-not-ignored"
+				}
+			}
+			step += " (" + shape + ")"
 			res.err = fmt.Sprintf("%s at t=%dns (bucket %d): Reduce visited {1:×%d, 100:×%d} count=%d sum=%g, reference (buckets %d..%d%s) {1:×%d, 100:×%d}; history %v",
 				step, now, cur, got1, got100, cnt, sum, cur-int64(size)+1, cur, map[bool]string{true: " minus current", false: ""}[ign], want1, want100, path)
 			return false
@@ -161,6 +177,30 @@ func rwJob(name string, size int, ign bool, thorough bool) *job {
 		}
 		sort.Strings(ms)
 		res.key = collection.VerifC16DumpRW(rw) + "#" + fmt.Sprint(now%iv) + "#" + strings.Join(ms, ",")
+		inCur := 0
+		for _, a := range adds {
+			if a.bucket == cur {
+				inCur++
+			}
+		}
+		switch {
+		case len(adds) == 0:
+		case len(ms) == 0:
+			res.tags = append(res.tags, "everything-expired")
+		case len(ms) < len(adds):
+			res.tags = append(res.tags, "partly-expired")
+		default:
+			res.tags = append(res.tags, "nothing-expired")
+		}
+		if ign && inCur > 0 {
+			res.tags = append(res.tags, "current-bucket-ignored")
+		}
+		if now%iv == 0 && now > 0 {
+			res.tags = append(res.tags, "clock-on-bucket-boundary")
+		}
+		if now%iv == iv-1 {
+			res.tags = append(res.tags, "clock-1ns-before-boundary")
+		}
 		observe("final observation")
 		return res
 	}
